@@ -56,6 +56,8 @@ def sp_param(name, kind, value, quoted_ok=True):
             alts = ["%s0x%X" % (sg, a), "%s0b%s" % (sg, bin(a)[2:]), "%s0o%o" % (sg, a)] + (["%s%s" % (sg, "{:,}".format(a).replace(",", "_"))] if a >= 1000 else [])
             for alt in alts:
                 out += ["%s = %s" % (name, alt), "%s(%s)" % (name, alt)]
+                if quoted_ok:
+                    out += ['%s = "%s"' % (name, alt), '%s("%s")' % (name, alt)]
         return out
     if kind == "expr":
         out = []
@@ -64,7 +66,7 @@ def sp_param(name, kind, value, quoted_ok=True):
         return out
     if kind == "bound":
         if value[0] == "all":
-            return ["bound(*)"]
+            return ["bound(*)"] + (['bound = "*"', 'bound("*")'] if quoted_ok else [])
         if value[0] == "none":
             return ["bound = false", "bound(false)", 'bound = ""']
         preds = ", ".join(value[1])
